@@ -226,6 +226,13 @@ func (w *c03world) catalogue(typ protocoltypes.EventType, salt int) []*c03env {
 	if chkGroup {
 		build("initial member announcement signed by the announced device", w.d1, w.d1, nil)
 	}
+	// the key that signs the LOG ENTRIES of the group is derived from the group secret: every member and
+	// every invitee holds it; it is no substitute for the group key or for a device key
+	if lsk, err := w.g.GetSigningPrivKey(); err == nil {
+		lraw, _ := lsk.GetPublic().Raw()
+		lk := &c03key{sk: lsk, pk: lsk.GetPublic(), raw: lraw, id: 16}
+		build("signed by the log-signing key derived from the group secret instead of the required signer", w.d1, lk, nil)
+	}
 	// signer field swapped after signing
 	if !chkGroup {
 		build("signer field swapped after signing", w.d1, nil, func(e *c03env, msg proto.Message) {
